@@ -550,6 +550,26 @@ func perturbations(base *genesis.GenesisConfig) []pert {
 			})
 		}
 	}
+	// one entry is re-addressed to a contract (per-token totals unchanged): the contract then holds more than its
+	// configuration section accounts for; with the contract's own entry before or after the re-addressed one
+	nre := 0
+	for i, b := range base.GenesisBlocks.Blocks {
+		if blockKind(b.Address) != "user" || nre >= 2 {
+			continue
+		}
+		nre++
+		for _, target := range []types.Address{types.PillarContract, types.PlasmaContract, types.SwapContract} {
+			i, target := i, target
+			add("readdress-block-to:"+blockKind(target), fmt.Sprintf("block[%d].address = %s", i, blockKind(target)), func(c *genesis.GenesisConfig) {
+				c.GenesisBlocks.Blocks[i].Address = target
+			})
+			add("readdress-block-to:"+blockKind(target)+":moved-to-front", fmt.Sprintf("block[%d].address = %s, moved to the front", i, blockKind(target)), func(c *genesis.GenesisConfig) {
+				b := c.GenesisBlocks.Blocks[i]
+				b.Address = target
+				c.GenesisBlocks.Blocks = append([]*genesis.GenesisBlockConfig{b}, removeAt(c.GenesisBlocks.Blocks, i)...)
+			})
+		}
+	}
 	for i := range base.PillarConfig.Pillars {
 		i := i
 		add("remove-pillar", fmt.Sprintf("remove pillar[%d]", i), func(c *genesis.GenesisConfig) { c.PillarConfig.Pillars = removeAt(c.PillarConfig.Pillars, i) })
